@@ -1,6 +1,6 @@
 /* probe_io.c -- C probe of the read/write path (C01): drives lbuf_rd / lbuf_wr / sbuf_mem of
  * /repo's current sources.  Same line protocol as ocaml/drv_io.ml.
- *   rw <chunks: hex,hex,...|-> <b> <e|-1> <old hex|-|absent> [<pos> <chunks2>]   (second file read at line pos, as :Nr)
+ *   rw <chunks: hex,hex,...|-> <b> <e|-1> <old hex|-|absent> [<pos>|<beg>:<end> <chunks2>]   (second file read at line pos as :Nr, or replacing lines beg..end as :e! does)
  *      the chunks are delivered to lbuf_rd one read(2) each (SOCK_SEQPACKET: one record per read),
  *      then lines [b,e) are written with lbuf_wr onto a real file that held <old>
  *   sbuf <len,len,...>   (len -1 = sbuf_chr)
@@ -18,7 +18,7 @@
 static char tmpl[256];
 
 /* deliver the chunks one record each on a SOCK_SEQPACKET pair and run lbuf_rd on the other end */
-static int feed_rd(struct lbuf *lb, char *chunks, int pos)
+static int feed_rd(struct lbuf *lb, char *chunks, int pos, int end)
 {
 	int sv[2];
 	pid_t pid;
@@ -48,7 +48,7 @@ static int feed_rd(struct lbuf *lb, char *chunks, int pos)
 		_exit(0);
 	}
 	close(sv[1]);
-	rd = lbuf_rd(lb, sv[0], pos, pos);
+	rd = lbuf_rd(lb, sv[0], pos, end);
 	close(sv[0]);
 	waitpid(pid, &st, 0);
 	if (rd || !WIFEXITED(st) || WEXITSTATUS(st))
@@ -56,14 +56,14 @@ static int feed_rd(struct lbuf *lb, char *chunks, int pos)
 	return 0;
 }
 
-static void do_rw(char *chunks, int b, int e, char *old, int pos, char *chunks2)
+static void do_rw(char *chunks, int b, int e, char *old, int pos, int end, char *chunks2)
 {
 	struct lbuf *lb = lbuf_make();
 	int fd, i;
 	long tot = 0;
 	struct stat st;
 	char *data;
-	if (feed_rd(lb, chunks, 0) || (chunks2 && feed_rd(lb, chunks2, pos))) {
+	if (feed_rd(lb, chunks, 0, 0) || (chunks2 && feed_rd(lb, chunks2, pos, end))) {
 		printf("error read\n");
 		lbuf_free(lb);
 		return;
@@ -145,7 +145,8 @@ int main(int argc, char *argv[])
 	while ((l = pu_getline())) {
 		int n = pu_words(l, w, 8);
 		if ((n == 5 || n == 7) && !strcmp(w[0], "rw"))
-			do_rw(w[1], atoi(w[2]), atoi(w[3]), w[4], n == 7 ? atoi(w[5]) : 0, n == 7 ? w[6] : NULL);
+			do_rw(w[1], atoi(w[2]), atoi(w[3]), w[4], n == 7 ? atoi(w[5]) : 0,
+				n == 7 ? (strchr(w[5], ':') ? atoi(strchr(w[5], ':') + 1) : atoi(w[5])) : 0, n == 7 ? w[6] : NULL);
 		else if (n == 2 && !strcmp(w[0], "sbuf"))
 			do_sbuf(w[1]);
 		else
